@@ -178,3 +178,77 @@ func H_C06_divpat() {
 	vAssert("C06.div.words", vAnd(wordsOK(q), wordsOK(r)))
 	vReach("end")
 }
+
+// H_C06_units: the small natural-number helpers that the long algorithms and the
+// rounding code are built from, each against its arithmetic definition for all
+// word values: decAddAt (carry propagation into the upper words), digit, sticky,
+// digits, trailingZeroDigits, shl, shr (fresh, same and longer receivers).
+func H_C06_units() {
+	switch vCfg("unit") {
+	case 1: // decAddAt(z, x, i): z += x * D^i, given that the sum fits
+		lz, n, i := vCfg("lz"), vCfg("n"), vCfg("i")
+		z := vNat("z", lz, false)
+		x := vNat("x", n, false)
+		Z, X := sFromWords(z), sFromWords(x)
+		sum := sAdd(Z, sMul(X, sPow10(_DW*i)))
+		vAssume(sLt(sum, sPow10(_DW*lz)))
+		low := make(dec, i)
+		copy(low, z[:i])
+		k := vCatch(func() { decAddAt(z, x, i) })
+		vAssert("C04.nopanic", k == 0)
+		vAssert("C06.addat.value", sEq(sFromWords(z), sum))
+		below := true
+		for j := range z {
+			below = vAnd(below, z[j] < _DB)
+		}
+		vAssert("C06.addat.words", below)
+		ok := true
+		for j := range low {
+			ok = vAnd(ok, low[j] == z[j])
+		}
+		vAssert("C06.addat.frame", ok)
+	case 2: // digit, sticky at position i
+		w, i := vCfg("w"), vCfg("i")
+		x := vNat("x", w, true)
+		X := sFromWords(x)
+		vAssert("C06.unit.digit", sEq(sU(uint64(x.digit(uint(i)))), sModPow10(sDivPow10(X, i), 1)))
+		st := x.sticky(uint(i))
+		vAssert("C06.unit.sticky", (st == 1) == !sIsZero(sModPow10(X, i)))
+		vAssert("C06.unit.sticky01", st <= 1)
+	case 4: // digits, trailingZeroDigits
+		w := vCfg("w")
+		x := vNat("x", w, true)
+		X := sFromWords(x)
+		d := int(vConcI(int64(x.digits())))
+		vAssert("C06.unit.digits", vAnd(sLe(sPow10(d-1), X), sLt(X, sPow10(d))))
+		tz := int(vConcI(int64(x.trailingZeroDigits())))
+		vAssert("C06.unit.tz", vAnd(sIsZero(sModPow10(X, tz)), !sIsZero(sModPow10(X, tz+1))))
+	case 3: // shl / shr
+		w, s := vCfg("w"), vCfg("s")
+		x := vNat("x", w, true)
+		X := sFromWords(x)
+		var z dec
+		switch vCfgOr("alias", 0) {
+		case 1:
+			z = x
+		case 2:
+			z = make(dec, w+3, w+4)
+			for j := range z {
+				z[j] = Word(vU64(vN("stale", j), 0, _DMax))
+			}
+		}
+		var l, r dec
+		if vCfgOr("right", 0) == 1 {
+			k := vCatch(func() { r = z.shr(x, uint(s)) })
+			vAssert("C04.nopanic", k == 0)
+			vAssert("C06.unit.shr", vAnd(sEq(sFromWords(r), sDivPow10(X, s)), wordsOK(r)))
+			vAssert("C06.unit.norm", vOr(len(r) == 0, r[maxInt(len(r)-1, 0)] != 0))
+		} else {
+			k := vCatch(func() { l = z.shl(x, uint(s)) })
+			vAssert("C04.nopanic", k == 0)
+			vAssert("C06.unit.shl", vAnd(sEq(sFromWords(l), sMulPow10(X, s)), wordsOK(l)))
+			vAssert("C06.unit.norm", vOr(len(l) == 0, l[maxInt(len(l)-1, 0)] != 0))
+		}
+	}
+	vReach("end")
+}
